@@ -2,7 +2,7 @@
    whichever the tree has; the driver probes it).  All statements are over the model, for every iteration order of the
    Go maps involved (the order is an argument) and every batch limit. *)
 From Coq Require Import List NArith Bool.
-From Verif.C23 Require Import Model Spec Lemmas ProofsGC ProofsSteps Witness.
+From Verif.C23 Require Import Model Spec Lemmas ProofsGC ProofsSteps Witness Inv Binv Reach Grace Grace2.
 Import ListNotations.
 Open Scope N_scope.
 
@@ -21,13 +21,11 @@ Proof. exact gc_fixed_sound. Qed.
 Print Assumptions c23_release_only_invalid_repaired.
 
 (* --- ... and it has been a leak candidate for the grace period ---
-   PARTIAL (step level): checkAllocations sets the confirmed flag of an allocation only when the allocation is found
+   Step level (the history-level chain is c23_release_only_invalid_after_grace below): checkAllocations sets the confirmed flag of an allocation only when the allocation is found
    unjustified (informer cache) and either its Kubernetes node is gone (no grace period applies) or its candidate
    clock, which markLeak starts at the first unjustified sighting and never moves, is older than a non-zero grace
-   period.  Missing: the history-level chain "released => flag set by such a check, clock reset by every justified
-   sighting in between" (needs idx_inv and a trace invariant over all histories); the oracle checks exactly that
-   chain on every implementation run (Spec.ok_grace_one / ok_grace_dump). *)
-Theorem c23_release_only_invalid_after_grace_partial :
+   period. *)
+Theorem c23_confirming_check_step :
   (forall w grace kn kexists c can tun i c' can' tun' a a',
      check_alloc w grace kn kexists (c, can, tun) i = (c', can', tun') ->
      aget i (c_allocs c) = Some a -> aget i (c_allocs c') = Some a' ->
@@ -36,7 +34,7 @@ Theorem c23_release_only_invalid_after_grace_partial :
      /\ (kexists = false \/ exists g t, grace = Some g /\ a_leaked a = Some t /\ g < w_now w - t /\ 0 < g))
   /\ (forall now g a t, a_leaked (mark_leak now g a) = Some t -> (a_leaked a = None /\ t = now) \/ a_leaked a = Some t).
 Proof. split; [exact check_alloc_confirms | exact mark_leak_clock]. Qed.
-Print Assumptions c23_release_only_invalid_after_grace_partial.
+Print Assumptions c23_confirming_check_step.
 
 (* --- all of a handle's addresses are released together or none --- *)
 (* repaired collector: for every order and batch limit, provided the handle index is complete and every confirmed
@@ -78,16 +76,15 @@ Qed.
 Print Assumptions c23_batch_cut_splits_handle_pinned_refuted.
 
 (* --- a node's last block is never released ---
-   PARTIAL: whatever the order in which emptyBlocks is ranged over, a ReleaseBlockAffinity call is made only for a block
+   Step level (history level: c23_never_last_block below): whatever the order in which emptyBlocks is ranged over, a ReleaseBlockAffinity call is made only for a block
    recorded as empty whose node has at least two blocks in blocksByNode at that moment (forgetBlock keeps the count
    current between two calls of one sync), and only after it was first seen empty more than a non-zero grace period
-   ago.  Missing: blocksByNode = image of the blocks seen, over all histories, for the repaired onBlockUpdated (checked
-   on every implementation run by Spec.ok_books / ok_lastblock). *)
-Theorem c23_never_last_block_partial : forall w grace c calls b c' calls',
+   ago. *)
+Theorem c23_never_last_block_step : forall w grace c calls b c' calls',
   rub_visit w grace (c, calls) b = (c', calls') ->
   calls' = calls \/ (calls' = calls ++ [b] /\ rba_ok grace w c b).
 Proof. exact rub_visit_call. Qed.
-Print Assumptions c23_never_last_block_partial.
+Print Assumptions c23_never_last_block_step.
 
 (* pinned onBlockUpdated: false against the blocks seen.  Block 1 moves from node 1 to node 2 in one update, block 2
    is then node 1's only block, and is released after the grace period. *)
@@ -102,12 +99,74 @@ Theorem c23_never_last_block_repaired_witness :
 Proof. exact last_repaired. Qed.
 Print Assumptions c23_never_last_block_repaired_witness.
 
-(* --- bookkeeping ---
-   PARTIAL: the final re-validation pass keeps the index invariant (unique ids, complete handle index, every
-   confirmed allocation indexed in confirmedLeaks) and changes nothing but flags.  Missing: the invariant over block
-   updates / deletes and checkAllocations, i.e. over all histories; the oracle compares the full dump with the image
-   of the blocks seen after every sync of every implementation run (Spec.ok_books). *)
-Theorem c23_bookkeeping_consistent_partial : forall w c l,
-  idx_inv c -> reval_inv w c (fold_left (gc_revalidate w) l c) l.
-Proof. intros w c l H. exact (reval_fold w c l c [] (reval_start w c H)). Qed.
-Print Assumptions c23_bookkeeping_consistent_partial.
+(* ======================= all histories, all map orders (repaired controller) =======================
+   reach f w c: (w, c) is reached from the initial state by any sequence of events (block updates / deletes, pods and
+   nodes appearing and disappearing in either view, pod deletion events, full-scan requests, time) and GC syncs, every
+   sync with arbitrary iteration orders of nodesToCheck, confirmedLeaks and emptyBlocks. *)
+
+Example c23_reach_example :
+  is_repaired (repaired (Some 900) 10000)
+  /\ reach (repaired (Some 900) 10000) (fst (run_events true split_events (world0, ctrl0)))
+                                        (snd (run_events true split_events (world0, ctrl0))).
+Proof. split; [split; reflexivity|]. apply (reach_run_events (repaired (Some 900) 10000)). constructor. Qed.
+
+(* --- bookkeeping stays consistent with the blocks seen ---
+   In every reachable state: allocation ids are unique, the handle index lists every tracked allocation, every
+   confirmed allocation is in confirmedLeaks (idx_inv); nodesByBlock is exactly "block seen with affinity host:n",
+   blocksByNode is its inverse relation without duplicates, and every emptyBlocks entry is a seen block with no
+   allocations affine to that node (Binv).  (Not covered: that the tracked allocations themselves and the per-node
+   index are the image of the blocks' contents - checked on every implementation run by Spec.ok_books.) *)
+Theorem c23_bookkeeping_consistent : forall f w c, is_repaired f -> reach f w c -> idx_inv c /\ Binv c.
+Proof. exact reach_inv. Qed.
+Print Assumptions c23_bookkeeping_consistent.
+
+(* --- released only if unjustified at release time: from any reachable state, no side condition --- *)
+Theorem c23_release_only_invalid : forall f w c norder gorder border,
+  is_repaired f -> reach f w c ->
+  Forall (opt_ok w (after_check f w norder c)) (so_rel (snd (sync_ipam f w norder gorder border c))).
+Proof. exact sync_release_sound. Qed.
+Print Assumptions c23_release_only_invalid.
+
+(* --- all of a handle's addresses or none: from any reachable state; the only premise is that the range over
+   confirmedLeaks visits every key (it is a map range) --- *)
+Theorem c23_handle_all_or_none_history : forall f w c norder gorder border,
+  is_repaired f -> reach f w c ->
+  (forall c1 i, In i (c_conf c1) -> In i (gorder c1)) ->
+  handle_closed (after_check f w norder c) (so_rel (snd (sync_ipam f w norder gorder border c))).
+Proof. exact sync_handle_closed. Qed.
+Print Assumptions c23_handle_all_or_none_history.
+
+(* --- a node's last block is never released: the ReleaseBlockAffinity calls of a sync from any reachable state pass
+   the specification's own check against the blocks seen (each block is seen, empty, affine to a node that has at
+   least two seen blocks at that moment, earlier calls of the same sync taken into account) --- *)
+Theorem c23_never_last_block : forall f w c norder gorder border,
+  is_repaired f -> reach f w c ->
+  ok_lastblock (c_blocks c) (so_rba (snd (sync_ipam f w norder gorder border c))) = true.
+Proof. exact sync_lastblock. Qed.
+Print Assumptions c23_never_last_block.
+
+(* --- ... and it has been a leak candidate for the grace period: the chain over histories ---
+   (w0, c0) any reachable state (e.g. right after the previous sync), then any events, then a sync:
+   a released allocation either is listed under a node that is not alive at this sync (no grace period applies), or
+   it is the very allocation (same id, same sequence number) that in (w0, c0) was already confirmed or was a candidate
+   whose clock is older than the non-zero grace period now; anything that happened in between that touches it (a
+   justified sighting, a re-allocation, disappearing and re-appearing) would have made it fresh, and a fresh allocation
+   is not released.  The clock shown after the sync is this sync's time or the unchanged clock from (w0, c0); the
+   confirmed flag after the sync obeys the same rule as a release. *)
+Theorem c23_release_only_invalid_after_grace : forall f w0 c0 evs norder gorder border,
+  is_repaired f -> reach f w0 c0 ->
+  let w := fst (run_events (f_fixaff f) evs (w0, c0)) in
+  let c := snd (run_events (f_fixaff f) evs (w0, c0)) in
+  let c' := fst (sync_ipam f w norder gorder border c) in
+  (forall o, In o (so_rel (snd (sync_ipam f w norder gorder border c))) ->
+     Dead w c (r_id o)
+     \/ exists a0, In a0 (c_allocs c0) /\ a_id a0 = r_id o /\ a_seq a0 = r_seq o
+                   /\ (a_conf a0 = true \/ elapsed (f_grace f) (w_now w) a0))
+  /\ (forall a' t, In a' (c_allocs c') -> a_leaked a' = Some t ->
+        t = w_now w \/ exists a0, In a0 (c_allocs c0) /\ a_id a0 = a_id a' /\ a_seq a0 = a_seq a' /\ a_leaked a0 = Some t)
+  /\ (forall a', In a' (c_allocs c') -> a_conf a' = true ->
+        Dead w c (a_id a')
+        \/ exists a0, In a0 (c_allocs c0) /\ a_id a0 = a_id a' /\ a_seq a0 = a_seq a'
+                      /\ (a_conf a0 = true \/ elapsed (f_grace f) (w_now w) a0)).
+Proof. exact grace_chain. Qed.
+Print Assumptions c23_release_only_invalid_after_grace.
